@@ -86,8 +86,8 @@ def rnd(x, sig=10):
         x = float(x)
         if not math.isfinite(x):
             return repr(x)
-        if x == 0:
-            return 0.0
+        if abs(x) < 1e-12:
+            return 0.0          # numerical noise must not split canonical states
         return float('%.*e' % (sig - 1, x))
     if isinstance(x, (int, np.integer)):
         return int(x)
